@@ -11,10 +11,8 @@ import GdcVerif.Lemmas.Htj2k
   (`openjph_cleanup_*`), MagSgn/VLC bit packing, `ojphMELReader`, T2, DWT, RCT — there the property is only
   searched (harness `c06.go`).
 
-  FINDING (reproduced by the harness on the unchanged tree, class `htj2k-kmax-0levels-min-sample`):
-  with 0 decomposition levels and one component the band precision is Kmax = P-1, one bit short of the
-  magnitude 2^(P-1) of the most negative DC-shifted sample; see `kmax_0levels_counterexample`,
-  `signmag_counterexample` and the `_partial` theorems.
+  The round-1 finding `htj2k-kmax-0levels-min-sample` (Kmax = P-1 at 0 levels) is repaired in /repo (18c42dd):
+  `kmax_0levels` is now a full theorem and the old witnesses are regression examples.
 -/
 namespace Htj2k
 
@@ -120,83 +118,141 @@ theorem kmax_enc_dec_agree (nl bd : Nat) (rct : Bool) (res band : Nat) (hbd : 1 
   rfl
 
 example : encBandNumbps 5 8 false 0 0 = 9 ∧ encBandNumbps 5 8 false 1 1 = 10 ∧ encBandNumbps 5 8 false 5 3 = 9 ∧
-    encBandNumbps 5 8 true 0 0 = 10 ∧ encBandNumbps 0 16 false 0 0 = 15 := by decide
+    encBandNumbps 5 8 true 0 0 = 10 ∧ encBandNumbps 0 16 false 0 0 = 16 ∧ encBandNumbps 0 8 true 0 0 = 9 := by decide
 
-/-! ## Is Kmax large enough?  (the finding) -/
+/-! ## Is Kmax large enough? -/
 
-/-- what the block coder needs from the band precision: every coefficient magnitude fits in Kmax bits.
-    Full statement for the 0-level (no DWT) single-component path: every DC-shifted P-bit sample. -/
-def kmax_0levels_FullStatement : Prop :=
-  ∀ (P : Nat), 1 ≤ P → P ≤ 16 → ∀ (v : Int), -(2 : Int) ^ (P - 1) ≤ v → v < 2 ^ (P - 1) →
-    v.natAbs < 2 ^ (encBandNumbps 0 P false 0 0).toNat
-
-/-- the full statement is FALSE on the unchanged tree: P = 8, unsigned sample 0 (DC-shifted −128) -/
-theorem kmax_0levels_counterexample : ¬ kmax_0levels_FullStatement := by
-  intro h
-  have := h 8 (by decide) (by decide) (-128) (by decide) (by decide)
-  revert this
-  decide
-
-/-- what does hold: every sample except the most negative one fits (Kmax = P−1 for 0 levels, 1 component) -/
-theorem kmax_0levels_partial (P : Nat) (_h1 : 1 ≤ P) (_h16 : P ≤ 16) (v : Int)
-    (hlo : -(2 : Int) ^ (P - 1) < v) (hhi : v < 2 ^ (P - 1)) :
+/-- (8) 0 decomposition levels, one component (repaired by 18c42dd; was the finding `htj2k-kmax-0levels-min-sample`):
+    every level-shifted P-bit sample — including the most negative one, magnitude 2^(P-1) — fits in the Kmax
+    magnitude bits of the only band. -/
+theorem kmax_0levels (P : Nat) (h1 : 1 ≤ P) (v : Int) (hlo : -(2 : Int) ^ (P - 1) ≤ v) (hhi : v < 2 ^ (P - 1)) :
     v.natAbs < 2 ^ (encBandNumbps 0 P false 0 0).toNat := by
-  have hk : (encBandNumbps 0 P false 0 0).toNat = P - 1 := by
-    unfold encBandNumbps htExpn biboLog2 htGuardBits; simp <;> omega
-  rw [hk]
+  have hk : (encBandNumbps 0 P false 0 0).toNat = (P - 1) + 1 := by
+    unfold encBandNumbps htExpn htGuardBits; simp <;> omega
+  rw [hk, Nat.pow_succ]
   have e : ((2 ^ (P - 1) : Nat) : Int) = (2 : Int) ^ (P - 1) := by simp [Int.natCast_pow]
+  have hp : 0 < 2 ^ (P - 1) := Nat.two_pow_pos _
   omega
 
-/-- with RCT (3 components) the extra precision bit makes 0 levels safe: Y ∈ [−2^(P−1), 2^(P−1)), Cb/Cr ∈ (−2^P, 2^P) -/
-theorem kmax_0levels_rct (P : Nat) (_h1 : 1 ≤ P) (_h16 : P ≤ 16) (v : Int)
-    (hlo : -(2 : Int) ^ P < v) (hhi : v < 2 ^ P) :
+/-- regression anchors: the old witnesses (8-bit unsigned 0 ↦ −128, 16-bit unsigned 0 ↦ −32768) now fit, and the
+    sign-magnitude word at the repaired Kmax carries them exactly -/
+example : (-128 : Int).natAbs < 2 ^ (encBandNumbps 0 8 false 0 0).toNat ∧
+    (-32768 : Int).natAbs < 2 ^ (encBandNumbps 0 16 false 0 0).toNat ∧
+    fromSignMag 8 (toSignMag 8 (-128)) = -128 ∧ fromSignMag 16 (toSignMag 16 (-32768)) = -32768 := by decide
+
+/-- (9) 0 levels with RCT (3 components): Y ∈ [−2^(P−1), 2^(P−1)), Cb/Cr ∈ (−2^P, 2^P) all fit (Kmax = P+1) -/
+theorem kmax_0levels_rct (P : Nat) (v : Int) (hlo : -(2 : Int) ^ P ≤ v) (hhi : v ≤ 2 ^ P) :
     v.natAbs < 2 ^ (encBandNumbps 0 P true 0 0).toNat := by
-  have hk : (encBandNumbps 0 P true 0 0).toNat = P := by
-    unfold encBandNumbps htExpn biboLog2 htGuardBits; simp <;> omega
-  rw [hk]
+  have hk : (encBandNumbps 0 P true 0 0).toNat = P + 1 := by
+    unfold encBandNumbps htExpn htGuardBits; simp <;> omega
+  rw [hk, Nat.pow_succ]
   have e : ((2 ^ P : Nat) : Int) = (2 : Int) ^ P := by simp [Int.natCast_pow]
+  have hp : 0 < 2 ^ P := Nat.two_pow_pos _
   omega
 
-/-- (8) the sign-magnitude word built by `encodeOpenJPHCleanup` and taken apart by `decodeOpenJPHCleanup` is exact
-    whenever the magnitude fits in Kmax bits -/
-theorem signmag_roundtrip_partial (kmax : Nat) (hk : kmax ≤ 31) (v : Int) (hv : v.natAbs < 2 ^ kmax) :
+/-- (10) the band-exponent table the encoder uses is exactly the ceil-log2 of the squared BIBO gains of quantization.go:
+    `2^(X-1) < G ≤ 2^X` for every band of every decomposition depth 0..6 -/
+theorem biboLog2_is_ceil_log2_of_gain : ∀ nl : Fin 7, ∀ res : Fin 7, ∀ band : Fin 4, res.val ≤ nl.val →
+    bandGain nl res band ≤ 2 ^ biboLog2 nl res band * 10 ^ 8 ∧
+    (0 < biboLog2 nl res band → 2 ^ (biboLog2 nl res band - 1) * 10 ^ 8 < bandGain nl res band) :=
+  biboLog2_is_ceil_log2_gain
+
+/-- (11) Kmax sufficiency for 1..6 levels, GIVEN the analysis-gain bound of the band.
+    LABELLED HYPOTHESIS `hgain` (not proved here for depth ≥ 2; it is the defining property of the BIBO gain table
+    `openJPH53LowBIBO/HighBIBO`, a statement about the cascaded 5/3 analysis filters): the coefficient's magnitude is
+    at most `bandGain / 10^8` times the largest sample magnitude `2^(precision-1)`.
+    Conclusion: the coefficient fits in the Kmax magnitude bits the encoder hands to the block coder — for every band
+    except HH of the first decomposition, whose nominal gain is exactly 4 = 2^X (handled exactly by (12)). -/
+theorem kmax_sufficient_of_gain (nl bd : Nat) (rct : Bool) (res band : Nat) (c : Int)
+    (hnl : 1 ≤ nl ∧ nl ≤ 6) (hbd : 1 ≤ bd) (hres : res ≤ nl) (hband : band ≤ 3)
+    (hnotHH1 : ¬ (band = 3 ∧ res = nl))
+    (hgain : c.natAbs * 10 ^ 8 ≤ bandGain nl res band * 2 ^ (bd + rct.toNat - 1)) :
+    c.natAbs < 2 ^ (encBandNumbps nl bd rct res band).toNat :=
+  kmax_sufficient_of_gain' nl bd rct res band c hnl hbd hres hband hnotHH1 hgain
+
+example : bandGain 5 0 0 = 291282489 ∧ bandGain 5 5 3 = 400000000 ∧ bandGain 6 1 3 = 807128100 ∧
+    (300 : Int).natAbs * 10 ^ 8 ≤ bandGain 5 0 0 * 2 ^ (8 + false.toNat - 1) := by decide
+
+/-- (12) one decomposition level, PROVED from the lifting formulas of dwt53.go (no gain hypothesis): with
+    `M = 2^(precision-1)` and samples in `[-M, M-1]`, the first pass maps into `inLow1`/`inHigh1` and the second pass
+    of either kind stays strictly inside `(-4M, 4M)`, and `4M = 2^Kmax` for all four level-1 bands. Neighbours are
+    arbitrary in-range values, which covers the symmetric extension at the borders. -/
+theorem kmax_level1_sufficient (bd : Nat) (rct : Bool) (hbd : 1 ≤ bd) (M : Int) (hM : M = 2 ^ (bd + rct.toNat - 1)) :
+    (∀ a b c d e, inSamples M a → inSamples M b → inSamples M c → inSamples M d → inSamples M e →
+      inLow1 M (lift53Low (lift53High a b c) c (lift53High c d e))) ∧
+    (∀ a b c, inSamples M a → inSamples M b → inSamples M c → inHigh1 M (lift53High a b c)) ∧
+    (∀ res band, res ≤ 1 → band ≤ 3 →
+      let K : Int := ((2 ^ (encBandNumbps 1 bd rct res band).toNat : Nat) : Int)
+      (∀ a b c d e, inLow1 M a → inLow1 M b → inLow1 M c → inLow1 M d → inLow1 M e →
+        -K < lift53Low (lift53High a b c) c (lift53High c d e) ∧ lift53Low (lift53High a b c) c (lift53High c d e) < K) ∧
+      (∀ a b c d e, inHigh1 M a → inHigh1 M b → inHigh1 M c → inHigh1 M d → inHigh1 M e →
+        -K < lift53Low (lift53High a b c) c (lift53High c d e) ∧ lift53Low (lift53High a b c) c (lift53High c d e) < K) ∧
+      (∀ a b c, inLow1 M a → inLow1 M b → inLow1 M c → -K < lift53High a b c ∧ lift53High a b c < K) ∧
+      (∀ a b c, inHigh1 M a → inHigh1 M b → inHigh1 M c → -K < lift53High a b c ∧ lift53High a b c < K)) := by
+  have hM1 : 1 ≤ M := by
+    rw [hM]; have : (0 : Int) < 2 ^ (bd + rct.toNat - 1) := Int.pow_pos (by decide); omega
+  refine ⟨fun a b c d e => pass1_low M a b c d e, fun a b c => pass1_high M a b c, ?_⟩
+  intro res band hres hband
+  have hK := kmax_level1 bd rct res band hbd hres hband
+  simp only [hK, ← hM]
+  exact ⟨fun a b c d e => pass2_LL M a b c d e hM1, fun a b c d e => pass2_lowOfHigh M a b c d e hM1,
+    fun a b c => pass2_highOfLow M a b c hM1, fun a b c => pass2_HH M a b c hM1⟩
+
+example : inSamples 128 (-128) ∧ inSamples 128 127 ∧ lift53High (-128) 127 (-128) = 255 ∧ inHigh1 128 255 ∧
+    lift53High (-255) 255 (-255) = 510 ∧ (510 : Int) < 2 ^ (encBandNumbps 1 8 false 1 3).toNat := by
+  unfold inSamples inHigh1; decide
+
+/-- (13) the sign-magnitude word built by `encodeOpenJPHCleanup` and taken apart by `decodeOpenJPHCleanup` is exact for
+    every coefficient that fits in Kmax magnitude bits — the block coder's contract, which (8), (9), (11), (12)
+    establish for the coefficients the encoder produces -/
+theorem signmag_roundtrip (kmax : Nat) (hk : kmax ≤ 31) (v : Int) (hv : v.natAbs < 2 ^ kmax) :
     fromSignMag kmax (toSignMag kmax v) = v := signmag_roundtrip' kmax hk v hv
 
-def signmag_roundtrip_FullStatement : Prop :=
-  ∀ (kmax : Nat), 1 ≤ kmax → kmax ≤ 30 → ∀ v : Int, v.natAbs ≤ 2 ^ kmax → fromSignMag kmax (toSignMag kmax v) = v
+/-- the contract is tight: a magnitude of exactly 2^Kmax turns into the word 0x80000000 ("−0"), its magnitude field is
+    0 (coded as insignificant) and it comes back as 0 — what the old Kmax = P−1 did to the sample −128 -/
+example : toSignMag 7 (-128) = 0x80000000 ∧ magField 7 (toSignMag 7 (-128)) = 0 ∧ fromSignMag 7 (toSignMag 7 (-128)) = 0 ∧
+    fromSignMag 15 (toSignMag 15 (-32767)) = -32767 := by decide
 
-/-- … and loses a coefficient of magnitude exactly 2^Kmax: −128 at Kmax 7 becomes the word 0x80000000 ("−0"),
-    its magnitude field is 0 (the sample is coded as insignificant) and it comes back as 0 -/
-theorem signmag_counterexample :
-    toSignMag 7 (-128) = 0x80000000 ∧ magField 7 (toSignMag 7 (-128)) = 0 ∧ fromSignMag 7 (toSignMag 7 (-128)) = 0 ∧
-    ¬ signmag_roundtrip_FullStatement := by
-  refine ⟨by decide, by decide, by decide, ?_⟩
-  intro h
-  have := h 7 (by decide) (by decide) (-128) (by decide)
-  revert this
-  decide
+/-! ## Scup locator -/
 
-example : fromSignMag 15 (toSignMag 15 (-32767)) = -32767 ∧ (32767 : Int).natAbs < 2 ^ 15 := by decide
+/-- (14) `writeScupLocator` then `parseStandardSegments`: the 12-bit Scup value is read back exactly, the upper nibble
+    of the second-to-last byte (VLC bits) is untouched, both bytes stay bytes -/
+theorem scup_roundtrip (oldLast2 scup : Nat) (hs : scup < 4096) :
+    let w := scupWrite oldLast2 scup
+    scupRead w.1 w.2 = scup ∧ w.1 / 16 = oldLast2 % 256 / 16 ∧ w.1 < 256 ∧ w.2 < 256 := by
+  unfold scupWrite scupRead; omega
+
+/-- (15) an accepted locator splits the code-block exactly: MagSgn bytes + (MEL+VLC) bytes = Lcup, with at least the two
+    locator bytes in the suffix and at most 4079 -/
+theorem scup_split_exact (lcup scup ms cl : Nat) (h : scupSplit lcup scup = some (ms, cl)) :
+    ms + cl = lcup ∧ cl = scup ∧ 2 ≤ cl ∧ cl ≤ 4079 := by
+  unfold scupSplit at h
+  split at h
+  · simp at h
+  · simp only [Option.some.injEq, Prod.mk.injEq] at h; omega
+
+example : scupWrite 0xA7 0x123 = (0xA3, 0x12) ∧ scupRead 0xA3 0x12 = 0x123 ∧ scupSplit 300 0x123 = some (9, 291) ∧
+    scupSplit 1 2 = none ∧ scupSplit 5000 4080 = none := by decide
 
 /-! ## VLC / U-VLC tables (generated from vlc_tables.go) -/
 
 set_option maxRecDepth 100000 in
-/-- (9) `VLCTbl0` (initial quad row): all 444 rows well-formed; within each of the 8 contexts no codeword is a
+/-- (16) `VLCTbl0` (initial quad row): all 444 rows well-formed; within each of the 8 contexts no codeword is a
     prefix (LSB-first) of another -/
 theorem vlc_tbl0_prefix_free : vlcTableOk Gen.Htj2k.VLCTbl0 = true := by decide +kernel
 
 set_option maxRecDepth 100000 in
-/-- (10) `VLCTbl1` (non-initial rows): same -/
+/-- (17) `VLCTbl1` (non-initial rows): same -/
 theorem vlc_tbl1_prefix_free : vlcTableOk Gen.Htj2k.VLCTbl1 = true := by decide +kernel
 
 set_option maxRecDepth 100000 in
-/-- (11) both tables are complete prefix codes in every context: Kraft sum exactly 1 (= 128/128), so every 7-bit
+/-- (18) both tables are complete prefix codes in every context: Kraft sum exactly 1 (= 128/128), so every 7-bit
     window the decoder peeks at matches exactly one row -/
 theorem vlc_tbl_complete :
     (List.range 8).map (vlcKraft Gen.Htj2k.VLCTbl0) = List.replicate 8 128 ∧
     (List.range 8).map (vlcKraft Gen.Htj2k.VLCTbl1) = List.replicate 8 128 := by decide +kernel
 
-/-- (12) the four U-VLC prefixes `1`, `01`, `001`, `000` (LSB first) are prefix-free and complete -/
+/-- (19) the four U-VLC prefixes `1`, `01`, `001`, `000` (LSB first) are prefix-free and complete -/
 theorem uvlc_prefix_free : prefixFreeKeys uvlcPrefixes = true ∧
     uvlcPrefixes.foldl (fun acc k => acc + 2 ^ (3 - k.2.2)) 0 = 8 := by decide
 
@@ -219,14 +275,39 @@ theorem ojphUVLC_decodes (code : Int) (h1 : 1 ≤ code) (h2 : code ≤ 92) :
   simp only [e] at hc
   exact hc
 
+/-! ## U-VLC encode/decode pair -/
+
+/-- (22) non-initial quad rows: `decodeOJPHUVLC(false, mode, window)` returns exactly the `(u0, u1)` that
+    `ojphEncodeNonInitialUVLC` coded and consumes exactly the coded bits — for every `u0, u1 ≤ 32` (the encoder never
+    writes the 4-bit extension, so 32 is the largest value the pair can carry; Kmax ≤ 30 keeps u below it) and for
+    EVERY continuation `rest` of the VLC bit stream after the code (the decoder's 6-bit prefix look-ahead never
+    lets following bits change the result). Tables: model of `generateUVLCTables`, compared entry by entry with the
+    package's `UVLCTbl1`. -/
+theorem uvlc_noninitial_roundtrip (u0 u1 rest : Nat) (h0 : u0 ≤ 32) (h1 : u1 ≤ 32) :
+    decodeUVLC false (uvlcMode false u0 u1)
+      ((encodeNonInitialUVLC u0 u1).1 + rest * 2 ^ (encodeNonInitialUVLC u0 u1).2) =
+      (u0, u1, (encodeNonInitialUVLC u0 u1).2) := uvlc_noninitial_roundtrip' u0 u1 rest h0 h1
+
+/-- (23) initial quad row: same for `ojphEncodeInitialUVLC` with its three layouts (both > 2 with MEL event 1 and codes
+    of u−2; u0 > 2 with a 1-bit u1 ∈ {1,2} between prefix and suffix; the general prefix-prefix-suffix-suffix layout),
+    the mode including the MEL event exactly as `mel.encode(min(u0,u1) > 2)` signals it -/
+theorem uvlc_initial_roundtrip (u0 u1 rest : Nat) (h0 : u0 ≤ 32) (h1 : u1 ≤ 32) :
+    decodeUVLC true (uvlcMode true u0 u1)
+      ((encodeInitialUVLC u0 u1).1 + rest * 2 ^ (encodeInitialUVLC u0 u1).2) =
+      (u0, u1, (encodeInitialUVLC u0 u1).2) := uvlc_initial_roundtrip' u0 u1 rest h0 h1
+
+example : encodeInitialUVLC 7 9 = (0x1000, 16) ∧ uvlcMode true 7 9 = 256 ∧ decodeUVLC true 256 (0x1000 + 5 * 2 ^ 16) = (7, 9, 16) ∧
+    encodeInitialUVLC 5 1 = (0, 9) ∧ uvlcMode true 5 1 = 192 ∧ encodeNonInitialUVLC 32 0 = (0xD8, 8) ∧
+    uvlcTbl0 64 = 5803 ∧ uvlcTbl1 255 = 9218 := by decide
+
 /-! ## Tile-parts: Psot / TPsot / TNsot / TLM (shared with C16) -/
 
-/-- (13) the Psot values `writeHTJ2KTileParts` writes add up to the bytes it emits (one tile-part per resolution:
+/-- (20) the Psot values `writeHTJ2KTileParts` writes add up to the bytes it emits (one tile-part per resolution:
     12-byte SOT, header, 2-byte SOD, packets), provided each part is shorter than 2^32 bytes -/
 theorem tileparts_psot_sum (parts : List (Nat × Nat)) (hfit : ∀ p ∈ parts, p.2 + p.1 + 14 < 2 ^ 32) :
     (psots parts).sum = (parts.map (fun p => tilePartLen p.1 p.2)).sum := psots_sum parts hfit
 
-/-- (14) `writeTLM`'s walk over the tile-part buffer (follow Psot from offset 0, reject `< 14` or overrun) succeeds,
+/-- (21) `writeTLM`'s walk over the tile-part buffer (follow Psot from offset 0, reject `< 14` or overrun) succeeds,
     visits one offset per tile-part — so the TLM marker lists exactly the Psot values, `Ltlm = 4 + 6·n` — and
     ends exactly at the end of the buffer -/
 theorem tileparts_tlm_walk (parts : List (Nat × Nat)) (hfit : ∀ p ∈ parts, p.2 + p.1 + 14 < 2 ^ 32) :
